@@ -503,7 +503,7 @@ call_stmt = (
     ) |
     (
         identifier +
-        expr_list[0, 1]
+        (~else_kw + expr_list)[0, 1]
     )
 ).set_name('call_stmt')
 
